@@ -28,6 +28,7 @@ EXPLANATION = (
     "NOT decided: annotation -> dtype translation; MRO semantics at run "
     "time; verdict equality on data."
     ' (R13) while BaseFieldInfo hashes / compares by name, the @check / @parser factories (pandas/polars and pyspark) hand the designations to the *Info object without set / frozenset / dict-key / set-comprehension: at decoration time every class-scope Field still has name None and a hash container would keep only the first.'
+    " (R14) the MRO-walking collectors of @check / @dataframe_check / @parser methods record a name as seen for every attribute (not only behind the isinstance(info, <Kind>Info) filter), so a subclass attribute of another kind hides the parent's method as attribute lookup does."
 )
 LEVEL_RULE = "one obligation per twin pair / config option / dispatch key / field attribute / write site"
 FLOORS = {"R1": 4, "R2": 12, "R3": 16, "R4": 14, "R5": 1, "R6": 1, "R7": 1, "R8": 1, "R9": 1, "R10": 1, "R11": 2, "R12": 3}
@@ -597,6 +598,51 @@ def r13_designations_not_hashed_before_named(ctx):
         raise AnalysisError(f"field check / parser decorator factories found: {n}")
 
 
+def r14_override_hides_whatever_its_kind(ctx):
+    """The collectors of @check / @dataframe_check / @parser methods walk the MRO from the most derived class and keep
+    a set of the names already seen, so that a subclass attribute hides the parent's method as Python's attribute lookup
+    does.  Python hides by *name*: `Child.rule` is the child's attribute whatever it is bound to (a check of another kind,
+    a plain classmethod).  The name therefore has to be recorded for every attribute - if the recording is only reached
+    after the `isinstance(info, <Kind>Info)` filter, a parent's column check overridden by a frame-level check (or by a
+    plain method) of the same name stays in the child's schema, bound to the parent's function."""
+    from ..cfg import cfg_of
+    n = 0
+    per_module = {}
+    for mp in ("pandera/api/dataframe/model.py", "pandera/api/pyspark/model.py"):
+        m = ctx.ix.module(mp)
+        per_module[mp] = 0
+        for f in m.all_functions:
+            loops = [lp for lp in walk_no_nested(f.node) if isinstance(lp, ast.For) and any(
+                isinstance(c, ast.Call) and isinstance(c.func, ast.Name) and c.func.id == "vars" for c in ast.walk(lp.iter))
+                and isinstance(lp.target, ast.Tuple) and lp.target.elts and isinstance(lp.target.elts[0], ast.Name)]
+            if not loops:
+                continue
+            cfg = None
+            for lp in loops:
+                key = lp.target.elts[0].id
+                adds = [c for c in ast.walk(lp) if isinstance(c, ast.Call) and callee_last(c) == "add" and len(c.args) == 1
+                        and isinstance(c.args[0], ast.Name) and c.args[0].id == key]
+                for c in adds:
+                    cfg = cfg or cfg_of(f.node)
+                    st = c
+                    while not isinstance(st, ast.stmt):
+                        st = st._parent
+                    node = cfg.node_of(st)
+                    kind_filters = [t for t, pol in (cfg.guards(node.id) if node is not None else [])
+                                    if any(isinstance(x, ast.Call) and isinstance(x.func, ast.Name) and x.func.id == "isinstance"
+                                           and len(x.args) == 2 and txt(x.args[0]) != key for x in ast.walk(t))]
+                    n += 1
+                    per_module[mp] += 1
+                    ctx.touched(f)
+                    ok = not kind_filters
+                    ctx.ob("R14", f, f"{f.short}: a name seen in a more derived class hides the inherited method whatever it is bound to", ok,
+                           f"`{txt(c)}` reached for every attribute" if ok else
+                           f"`{txt(c)}` is reached only when `{txt(kind_filters[0])[:60]}`: a subclass attribute of another kind (a @dataframe_check or plain method "
+                           "named like the parent's @check) does not hide the parent's method, whose check stays in the child's schema", f.loc(c))
+    if not all(per_module.values()):
+        raise AnalysisError(f"model collectors with a seen-names set found: {per_module}")
+
+
 def run(ctx):
     from ..defassign import check_modules
     check_modules(ctx, "R8", ('pandera/api/dataframe/model.py', 'pandera/api/dataframe/model_components.py', 'pandera/api/pandas/model.py', 'pandera/api/polars/model.py', 'pandera/api/base/model.py', 'pandera/api/base/model_components.py'), "escapes to_schema()/validate of the model")
@@ -607,6 +653,7 @@ def run(ctx):
     r11_config_merge_direction(ctx)
     r12_checks_keyed_like_fields(ctx)
     r13_designations_not_hashed_before_named(ctx)
+    r14_override_hides_whatever_its_kind(ctx)
     r1_twins(ctx)
     r2_config(ctx)
     r3_dispatch(ctx)
